@@ -592,7 +592,12 @@ def mw_default_scale_stream(ctx, count, n_range=(400, 3000)):
         X = pd.DataFrame(Xn)
         d = MovingWindow().fit(X)
         if it % 3 == 2:
-            d.threshold_ = 0.15 * float(d.threshold_)          # a low threshold on a long series: dozens of runs above it
+            # a long series with the threshold at the median score: well over a hundred separate runs above it
+            n, p = rng.randint(2000, 2600), 1
+            Xn = np.asarray([[rng.gauss(0, 1)] for _ in range(n)])
+            X = pd.DataFrame(Xn)
+            d = MovingWindow().fit(X)
+            d.threshold_ = float(np.median(d.transform_scores(X).to_numpy()[30:-30]))
         b, mdi = d.bandwidth, d.min_detection_interval
         scores = d.transform_scores(X).to_numpy().reshape(-1)
         cpts = [int(v) for v in d.predict(X)["ilocs"]]
@@ -656,8 +661,9 @@ def cbs_default_scale_stream(ctx, count, n_range=(150, 220)):
     for it in range(count):
         n, p = (rng.randint(*n_range) if it else rng.randint(262, 290)), (rng.choice([1, 3]) if it else 1)
         Xn = np.asarray([[rng.gauss(0, 1) for _ in range(p)] for _ in range(n)])
-        a = rng.randint(10, n - 40) if it % 2 else rng.randint(20, 45)
-        Xn[a:(a + rng.randint(6, 25)) if it % 2 else (n - rng.randint(12, 40))] += rng.choice([4.0, -5.0])      # a short event, or one that spans most of the series
+        a = rng.randint(10, n - 40) if it % 2 else 2 * rng.randint(10, 22)
+        # a short event, or one that spans most of the series (EVEN start, ODD end: not on any coarser grid anchored at the first admissible inner start)
+        Xn[a:(a + rng.randint(6, 25)) if it % 2 else ((n - rng.randint(12, 40)) | 1)] += rng.choice([4.0, -5.0])
         X = pd.DataFrame(Xn)
         d = CircularBinarySegmentation().fit(X)
         m = d.min_segment_length
